@@ -55,7 +55,7 @@ var c39Classes = []string{
 	"ed-innerpub-only", "ed-outer-swapped", "ed-priv-len", "ed-pub-len",
 	// ECDSA
 	"ec-point-other-outerA", "ec-point-other-outerB", "ec-keytype-vs-curve", "ec-curvefield-vs-point",
-	"ec-d-zero", "ec-d-eq-n", "ec-d-plus-n", "ec-d-negative", "ec-d-n-minus-1", "ec-point-compressed", "ec-point-infinity", "ec-point-offcurve", "ec-outer-swapped", "ec-outer-other-curve",
+	"ec-d-zero", "ec-d-eq-n", "ec-d-plus-n", "ec-d-negative", "ec-d-n-minus-1", "ec-d-n-minus-2", "ec-point-compressed", "ec-point-infinity", "ec-point-offcurve", "ec-outer-swapped", "ec-outer-other-curve",
 	// RSA
 	"rsa-n-not-pq", "rsa-n-not-pq-outer-orig", "rsa-d-wrong", "rsa-d-plus-lambda", "rsa-e-mismatch", "rsa-pq-swapped", "rsa-iqmp-garbage", "rsa-p-foreign",
 	"rsa-outer-swapped", "rsa-e-bad", "rsa-negative", "rsa-p-one",
@@ -223,16 +223,21 @@ func buildClass(cls string, r *rand.Rand, block int) *built {
 		ps.EC.Curve = fm.CurveName(other)
 		b.what = "curve field names another curve than the point"
 		return finish(ps, outer)
-	case "ec-d-zero", "ec-d-eq-n", "ec-d-plus-n", "ec-d-negative", "ec-d-n-minus-1":
+	case "ec-d-zero", "ec-d-eq-n", "ec-d-plus-n", "ec-d-negative", "ec-d-n-minus-1", "ec-d-n-minus-2":
 		c := mon.Pick(r, curves)
 		A := ecKey(r, c)
 		n := c.Params().N
 		b.keyType = ecKind(c)
 		switch cls {
 		case "ec-d-n-minus-1":
+			// a valid ECDSA key; OpenSSH insists on d < n-1, so it is not a control for ssh-keygen
 			A = ecFromD(c, new(big.Int).Sub(n, big.NewInt(1)))
+			b.what = "d = n-1 (largest valid scalar; OpenSSH refuses it)"
+			return finish(std(A))
+		case "ec-d-n-minus-2":
+			A = ecFromD(c, new(big.Int).Sub(n, big.NewInt(2)))
 			b.expect = expControl
-			b.what = "d = n-1 (largest valid scalar)"
+			b.what = "d = n-2 (largest scalar OpenSSH accepts)"
 			return finish(std(A))
 		}
 		ps, outer := std(A)
